@@ -263,12 +263,32 @@ def build_model_run():
     return True, "built"
 
 
+# build configurations of the harness (C13): name -> (extra RUSTFLAGS, target-dir suffix, cargo features or None)
+CONFIGS = {
+    "scalar": ("", "-scalar", ""),                 # no `simd` feature: scalar fallback
+    "sse2": ("", "", None),                        # the default build
+    "sse41": ("-C target-feature=+sse4.1", "-sse41", None),
+    "avx": ("-C target-feature=+avx", "-avx", None),
+    "avx2fma": ("-C target-feature=+avx2,+fma", "-avx2fma", None),
+}
+
+
 def harness_exe(profile="debug", feat=""):
+    if profile.startswith("cfg-"):
+        return os.path.join(CARGO_TARGET + CONFIGS[profile[4:]][1], "release", "impl_run")
     return os.path.join(CARGO_TARGET + feat, profile, "impl_run")
+
+
+def build_config(name):
+    """release build of the harness for one SIMD configuration; returns (ok, msg)"""
+    flags, feat, feats = CONFIGS[name]
+    return build_harness("release", rustflags_extra=flags, feat=feat, cargo_features=feats)
 
 
 def build_harness(profile="debug", rustflags_extra="", feat="", cargo_features=None):
     """Build the Rust harness against /repo's current working tree, hooks on."""
+    if profile.startswith("cfg-"):
+        return build_config(profile[4:])
     hdir = os.path.join(ROOT, "harness")
     lock = os.path.join(hdir, "Cargo.lock")
     if not os.path.exists(lock) or open(lock).read() == "":
@@ -288,12 +308,12 @@ def build_harness(profile="debug", rustflags_extra="", feat="", cargo_features=N
 # --------------------------------------------------------------------------------------------
 # running cases
 # --------------------------------------------------------------------------------------------
-def run_lines(exe, lines, shards=NCPU, timeout=1800):
+def run_lines(exe, lines, shards=NCPU, timeout=1800, min_per_shard=64):
     """Feed `lines` to `exe` (line protocol) in parallel shards; returns list of output lines."""
     if not lines:
         return []
     n = len(lines)
-    shards = max(1, min(shards, (n + 63) // 64))
+    shards = max(1, min(shards, (n + min_per_shard - 1) // min_per_shard))
     per = (n + shards - 1) // shards
     procs = []
     for i in range(shards):
@@ -384,6 +404,7 @@ def check(pid, tier):
     mod = importlib.import_module("props." + pid.lower())
     ctx = Ctx(pid, tier, seed)
     known = [k for k in load_known() if k["property"] == pid and k["status"] == "known"]
+    ctx.mod, ctx.known = mod, known
 
     # 1. translate
     try:
@@ -657,6 +678,11 @@ def setup():
     log("harness debug:", ok2, "" if ok2 else msg2)
     ok3, msg3 = build_harness("release")
     log("harness release:", ok3, "" if ok3 else msg3)
+    # the per-configuration builds of the quick tier of C13 (in parallel; each is a separate target dir)
+    import concurrent.futures
+    with concurrent.futures.ThreadPoolExecutor(max_workers=3) as ex:
+        for name, r in zip(("scalar", "avx2fma"), ex.map(build_config, ("scalar", "avx2fma"))):
+            log("harness config", name, r[0], "" if r[0] else r[1][-800:])
     # warm the Print Assumptions cache of every property (in parallel)
     import concurrent.futures
     props = []
